@@ -195,6 +195,11 @@ func (g *gen) dup() txgen.Tx {
 	if (s.Kind == "ETH_REDEEM" || s.Kind == "ERC20_REDEEM") && variant == "trailing-bytes" && g.excluded("ETH_REDEEM:trailing-bytes") {
 		variant = "new-tx"
 	}
+	if variant == "other-account" && (s.Kind == "ETH_LOCK" || s.Kind == "ERC20_LOCK") && g.excluded("ETH_REPORT_FINALITY_MINT:locker-other") {
+		// known finding: the mint follows the beneficiary named by the crossing report. While it is excluded
+		// every incarnation of a lock keeps one owner, so that generated reports never name another account by accident.
+		variant = "new-tx"
+	}
 	ui := s.Owner
 	raw := s.Raw
 	switch variant {
